@@ -262,17 +262,25 @@ def c10_4(ctx):
     for fn in ("encode_integer", "encode_sequence", "remove_sequence", "remove_integer", "encode_length", "read_length", "sigencode_der", "sigdecode_der"):
         sym.against_reference(ctx, ctx.func(DER, fn), _ref(), [fn, fn + "_v2"] if fn == "remove_integer" else fn, "der:%s" % fn, ints, inline=False)
     # a truncated element is refused with the documented error before anything is indexed: a zero-length integer, no length byte
+    # (the test may be spelled `== 0`, `< 1`, `not x`)
+    def refuses(w_, is_subject, key, where, msg):
+        eq0 = lambda o: (o.startswith("0 == ") and is_subject(o[5:])) or (o.endswith(" == 0") and is_subject(o[:-5])) or (o.endswith(" < 1") and is_subject(o[:-4]))
+        tr = lambda o: o.startswith("truthy(") and o.endswith(")") and is_subject(o[7:-1])
+        ctx.check(sym.guard_present(w_, is_der_raise, eq0) or sym.guard_present(w_, is_der_raise, tr, positive=False), key, where, msg)
     ri = ctx.func(DER, "remove_integer")
     w_ = sym.walk(ctx, ri, int_names=ints)
     is_der_raise = ru.is_raise_of("UnexpectedDER")
-    ctx.check(sym.guard_present(w_, is_der_raise, lambda o: (o.startswith("0 == ") or o.endswith(" == 0") or o.endswith(" < 1")) and ("read_length(" in o or "length" in o) and "len(" not in o), "der-zero-length-integer", ctx.where(ri),
-              "remove_integer does not refuse an integer of declared length 0 with UnexpectedDER (a truncated signature ends in a TypeError / IndexError instead)")
+    refuses(w_, lambda t: ("read_length(" in t and t.endswith("[0]")) or t == "length", "der-zero-length-integer", ctx.where(ri),
+            "remove_integer does not refuse an integer of declared length 0 with UnexpectedDER (a truncated signature ends in a TypeError / IndexError instead)")
     rl = ctx.func(DER, "read_length")
     sp = rl.params()[0]
     w_ = sym.walk(ctx, rl, int_names=ints)
-    ctx.check(sym.guard_present(w_, is_der_raise, lambda o: o.replace(" ", "") in ("0==len(%s)" % sp, "len(%s)==0" % sp, "len(%s)<1" % sp))
-              or sym.guard_present(w_, is_der_raise, lambda o: o == "truthy(%s)" % sp, positive=False), "der-no-length-byte", ctx.where(rl),
-              "read_length does not refuse an empty length field with UnexpectedDER")
+    wl = sym.int_walk(ctx, rl, {"len(%s)" % sp})
+    frl = sym.exits_formula(wl, is_der_raise)
+    if frl is not False and iv(0, 0).issubset(sym.must_set(frl, U, E)):
+        ctx.ok("der-no-length-byte", sample={"raises_for_len": sym.must_set(frl, U, E).fmt()})      # as an interval: the empty field is always refused
+    else:
+        refuses(w_, lambda t: t in (sp, "len(%s)" % sp), "der-no-length-byte", ctx.where(rl), "read_length does not refuse an empty length field with UnexpectedDER")
     # callers of the lenient / strict decoder handle exactly the documented errors
     for rel, fn, callee in (("pycoin/satoshi/checksigops.py", "checksigs", "parse_and_check_signature_blob"), (KEY, "Key.verify", "sigdecode_der")):
         c = ctx.func(rel, fn)
